@@ -447,7 +447,7 @@ def defaultOf (functionId : String) : Expr → (DefaultVal × Bool × List Strin
     | _ => (.unknown, isNone, ws ++ ["unexpected operator"])
   | .int v => (.int v, false, [])
   | .float r => (.float r, false, [])
-  | .str v => (.str ("\"" ++ v ++ "\""), false, [])
+  | .str v => (.str (escapeStringLiteral v), false, [])
   | _ => (.none, false, [])
 
 /-- `get_argument_kind` (tied by T2) -/
